@@ -196,6 +196,7 @@ def run(ctx):
             ctx.impl_violation(f"{name}: on a freshly built lattice {fails[0]}", dict(case=name, lattice=zoo.lat_to_json(l), failures=[str(f) for f in fails[:5]]))
         ctx.case((name, l.n_vertices, l.n_edges), nontrivial=l.n_edges >= 3)
         ctx.count("churn_lattices")
+    core.history_check(ctx, "import numpy as np\nfrom koala import example_graphs as eg, voronization as vz, graph_utils as gu, quasicrystals as qc, phase_diagrams as pdg, hamiltonian as ham\nfrom koala.flux_finder import flux_finder as ff\n\ndef _canon(l):\n    parts = [l.vertices.positions.ravel(), l.edges.indices.ravel().astype(float), l.edges.crossing.ravel().astype(float)]\n    return np.concatenate(parts)\ndef _plaq(l):\n    out = []\n    for p in l.plaquettes:\n        out += [float(len(p.edges))] + [float(x) for x in p.edges] + [float(x) for x in p.directions] + [float(x) for x in p.vertices] + [float(x) for x in p.center]\n    return np.array(out)\n_pts = np.random.default_rng(123).uniform(size=(14, 2))\n", ["_plaq(vz.generate_lattice(_pts))", "_plaq(eg.honeycomb_lattice(2))", "_plaq(eg.tri_square_pent())"], label="Lattice.plaquettes of")
     ctx.assumptions += [
         "float arctan2 ordering and winding are replaced in the model by exact predicates; inputs whose smallest angular gap has sin^2 < 1e-18 are precondition-excluded (counted)",
         "Hopf's Umlaufsatz (turning number -1 <=> positive area for edge-simple contractible face walks) is a hypothesis of plaquettes_eq_positive_area_faces_partial; evaluated exactly on every traced walk",
